@@ -57,6 +57,9 @@ func gen(g *mon.Gen) {
 					g.Emit(&Case{Client: client, FC: fc, Size: size, Exc: exc, Mode: "single", Seed: rng.Int63(), Dense: dense})
 					g.Emit(&Case{Client: client, FC: fc, Size: size, Exc: exc, Mode: "bytewise", Seed: rng.Int63()})
 					g.Emit(&Case{Client: client, FC: fc, Size: size, Exc: exc, Mode: "flavours", Seed: rng.Int63()})
+					if exc && (fc == 3 || fc == 16 || g.Thorough()) {
+						g.Emit(&Case{Client: client, FC: fc, Exc: true, Mode: "exccodes", Seed: rng.Int63()})
+					}
 					if client != clientx.Serial || g.Thorough() {
 						g.Emit(&Case{Client: client, FC: fc, Size: size, Exc: exc, Mode: "pairs", Seed: rng.Int63()})
 					}
@@ -88,7 +91,7 @@ func Build(rng *rand.Rand, client int, fc uint8, size int, exc bool) (packet.Req
 	}
 	var p specref.Resp
 	if exc {
-		p = specref.Resp{FC: fc, Unit: q.Unit, TID: q.TID, Exception: true, ExCode: []uint8{1, 2, 3, 4, 6, 11}[rng.Intn(6)]}
+		p = specref.Resp{FC: fc, Unit: q.Unit, TID: q.TID, Exception: true, ExCode: []uint8{1, 2, 3, 4, 5, 6, 7, 8, 10, 11}[rng.Intn(10)]}
 	} else {
 		p = libx.ReplyFor(rng, q)
 		if fc == 17 {
@@ -312,6 +315,25 @@ func run(ci any, r *mon.Rec) {
 		// leading timed-out reads before the first byte
 		steps := append([]xport.ReadStep{{Err: "deadline"}, {Err: "deadline"}, {Err: "deadline"}}, xport.Cuts(L, nil, 0)...)
 		j.schedule(steps, 4)
+	case "exccodes":
+		// every exception code a device can put into the reply (all 256 on the network clients; the documented ones plus a
+		// PRNG handful on the serial client, whose every call sleeps 30 ms), whole and cut once
+		var codes []int
+		if c.Client == clientx.Serial && !r.Thorough() {
+			codes = []int{0, 1, 2, 3, 4, 5, 6, 7, 8, 10, 11, 0x80, 0xFF, rng.Intn(256), rng.Intn(256)}
+		} else {
+			for k := 0; k < 256; k++ {
+				codes = append(codes, k)
+			}
+		}
+		for _, code := range codes {
+			rep := specref.Resp{FC: c.FC, Unit: q.Unit, TID: q.TID, Exception: true, ExCode: uint8(code)}.Encode(clientx.FramingOf(c.Client))
+			j2 := &judge{c: c, r: r, req: req, q: q, reply: rep}
+			j2.schedule(xport.Cuts(len(rep), nil, 0), mon.Mix(90, uint64(code)))
+			k := 1 + (code % (len(rep) - 1))
+			j2.schedule(xport.Cuts(len(rep), []int{k}, code%2), mon.Mix(91, uint64(code)))
+		}
+		r.Cover("exception-codes", fmt.Sprint(len(codes)))
 	case "flavours":
 		// the same reply, the read results spelled the other ways the io.Reader contract and real transports allow:
 		// the final bytes together with io.EOF in one Read; an empty timed-out read reported through a wrapping error
@@ -336,6 +358,25 @@ func run(ci any, r *mon.Rec) {
 			}
 		}
 		j.schedule([]xport.ReadStep{{N: L, Err: "eof"}}, 86)
+		// a slow device: long runs of empty reads before and inside the reply (far more than any retry counter a client
+		// might keep, far less than the read timeout allows: an empty read costs microseconds here)
+		long := func(kind string, n int) []xport.ReadStep {
+			out := make([]xport.ReadStep, n)
+			for i := range out {
+				out[i] = xport.ReadStep{Err: kind}
+			}
+			return out
+		}
+		empties := []string{"deadline"}
+		if c.Client == clientx.Serial {
+			empties = []string{"deadline", "", "eof"} // "": zero bytes and no error
+		}
+		for i, kind := range empties {
+			k := ks[len(ks)/2]
+			steps := append(long(kind, 150), xport.ReadStep{N: k})
+			steps = append(append(steps, long(kind, 150)...), xport.ReadStep{N: L - k})
+			j.schedule(steps, mon.Mix(88, uint64(i)))
+		}
 	case "pairs":
 		if L > 16 {
 			for i := 0; i < 40; i++ {
